@@ -222,26 +222,73 @@ def tracksites(rep, c, sfx, trackpath):
     if not ok or tested == 0:
         r.violation("track:atomic-return", where(track["body"]), "a path of track records an attempt without having "
                     "tested that the mode is not Atomic: rules inside an atomic rule's interior get reported")
-    # choice of the vector
-    chosen = None
-    for n in walk(track["body"]):
-        if kind(n) == "If":
-            t = cond_variant_test(n["cond"], "lookahead", LOOK)
-            if t and n.get("else") is not None:
-                tv = vec_field_of(tail_expr(n["then"]))
-                ev = vec_field_of(tail_expr(n["else"]))
-                if tv and ev:
-                    chosen = (t, tv, ev)
-    r.instance("track:vector-choice", where(track["body"]), str(chosen))
-    if chosen is None:
+    # choice of the vector, path by path: on every path that pushes the rule, the receiving vector is neg_attempts
+    # exactly when the path runs under lookahead == Negative (whatever the spelling: if/else selecting a `&mut` vector,
+    # a match on self.lookahead, two separate pushes ..)
+    tlets = hirq.lets(track["body"])
+    npush = 0
+    verdicts = set()
+    for (ev, out) in exits(PathEnum(track).paths()):
+        pushes = [e for e in ev if e.kind == "call" and kind(e.node) == "MethodCall" and e.node["m"] == "push"]
+        for pu in pushes:
+            vec = vec_field_of(pu.node["recv"])
+            lid = hirq.local_id(pu.node["recv"])
+            if vec is None and lid in tlets:
+                init = peel(tlets[lid][0])
+                # the branch of the initializer taken on this path
+                cur = init
+                guard = 0
+                while kind(cur) in ("If", "Block", "Match") and guard < 6:
+                    guard += 1
+                    if kind(cur) == "Block":
+                        cur = peel(cur["expr"]) if cur.get("expr") is not None else None
+                    elif kind(cur) == "If":
+                        ce = next((e for e in ev if e.kind == "cond" and e.node is cur["cond"]), None)
+                        if ce is None:
+                            ce = next((e for e in ev if e.kind == "cond" and peel(e.node) is peel(cur["cond"])), None)
+                        if ce is None:
+                            cur = None
+                        else:
+                            cur = peel(cur["then"] if ce.extra else cur["else"])
+                    elif kind(cur) == "Match":
+                        ae = next((e for e in ev if e.kind == "arm" and e.node is cur), None)
+                        cur = peel(cur["arms"][ae.extra]["body"]) if ae is not None else None
+                    if cur is None:
+                        break
+                vec = vec_field_of(cur) if cur is not None else None
+            if vec is None:
+                continue
+            npush += 1
+            neg = None
+            for e in ev[:ev.index(pu)]:
+                if e.kind == "cond":
+                    tst = cond_variant_test(e.node, "lookahead", LOOK)
+                    if tst and tst[1] == "Negative":
+                        neg = (tst[0] == "==") == bool(e.extra)
+                elif e.kind == "arm":
+                    scr = peel(e.node["scrut"])
+                    if kind(scr) == "Field" and scr["name"] == "lookahead":
+                        arm = e.node["arms"][e.extra]
+                        vs = [v.split("::")[-1] for v in hirq.pat_variants(arm["pat"])]
+                        if vs == ["Negative"]:
+                            neg = True
+                        elif "Negative" not in vs:
+                            # a catch-all after a Negative arm, or explicit other variants
+                            earlier = [v.split("::")[-1] for a2 in e.node["arms"][:e.extra] for v in hirq.pat_variants(a2["pat"])]
+                            if vs or "Negative" in earlier:
+                                neg = False
+            verdicts.add((vec, neg))
+    r.instance("track:vector-choice", where(track["body"]), str(sorted(verdicts, key=str)))
+    if npush == 0:
         r.violation("track:vector-choice", where(track["body"]), "selection between pos_attempts and neg_attempts "
                     "not found")
-    else:
-        (op, var), tv, ev = chosen
-        neg_vec = tv if (op, var) == ("==", "Negative") else (ev if (op, var) == ("!=", "Negative") else None)
-        if neg_vec != "neg_attempts":
-            r.violation("track:vector-choice", where(track["body"]), "under lookahead == Negative the attempt goes to "
-                        "%s" % neg_vec)
+    for (vec, neg) in sorted(verdicts, key=str):
+        if neg is None:
+            r.violation("track:vector-choice", where(track["body"]), "an attempt is pushed to %s on a path that has not "
+                        "tested lookahead against Negative" % vec)
+        elif (vec == "neg_attempts") != neg:
+            r.violation("track:vector-choice", where(track["body"]), "under lookahead %s Negative the attempt goes to "
+                        "%s" % ("==" if neg else "!=", vec))
     # monotone attempt_pos (high-water mark)
     highwater(r, track, "attempt_pos", "track")
 
@@ -269,6 +316,9 @@ def highwater(r, fn, field, label):
                 if kind(c) == "Binary" and c["op"] == "<" and (hirq.place(c["l"]) or ("", 0, []))[2][-1:] == [field] \
                         and hirq.local_id(c["r"]) is not None and hirq.local_id(c["r"]) == hirq.local_id(a["r"]):
                     ok = True
+            if g[0] == "arm" and greater_arm(g[1], g[2], field) is not None \
+                    and greater_arm(g[1], g[2], field) == hirq.local_id(a["r"]):
+                ok = True   # `match x.cmp(&self.field) { Ordering::Greater => { self.field = x } .. }`
         r.instance("%s:highwater-assign" % label, where(a))
         if not ok:
             r.violation("%s:highwater-assign" % label, where(a), "%s is assigned outside `if x > self.%s { .. = x }`: "
@@ -292,8 +342,39 @@ def highwater(r, fn, field, label):
                     r.violation("%s:highwater-branch" % label, where(n),
                                 "a path through `if x > self.%s` does not record x as the new %s: state that was "
                                 "reset for the new furthest position stays keyed to the old one" % (field, field))
+    for n in walk(fn["body"]):
+        if kind(n) == "Match":
+            for i, arm in enumerate(n["arms"]):
+                x = greater_arm(n, i, field)
+                if x is None:
+                    continue
+                pe = PathEnum(fn)
+                allok = True
+                for (ev, out) in pe.paths_of(arm["body"]):
+                    if out == "diverge":
+                        continue
+                    if not any(e.kind == "assign" and (hirq.place(e.node["l"]) or ("", 0, []))[2][-1:] == [field]
+                               and hirq.local_id(e.node["r"]) == x for e in ev):
+                        allok = False
+                r.instance("%s:highwater-branch" % label, where(arm["body"]))
+                if not allok:
+                    r.violation("%s:highwater-branch" % label, where(arm["body"]),
+                                "a path through the `Greater` arm does not record x as the new %s" % field)
     if not assigns:
         r.violation("%s:highwater-assign" % label, where(fn["body"]), "no assignment to %s found" % field)
+
+
+def greater_arm(m, idx, field):
+    """If arm idx of m is the `Ordering::Greater` arm of `match x.cmp(&self.<field>)`, the local id of x."""
+    scr = peel(m["scrut"])
+    if not (kind(scr) == "MethodCall" and scr["m"] == "cmp" and scr["args"]):
+        return None
+    if (hirq.place(scr["args"][0]) or ("", 0, []))[2][-1:] != [field]:
+        return None
+    vs = hirq.pat_variants(m["arms"][idx]["pat"])
+    if len(vs) == 1 and vs[0].endswith("Ordering::Greater") and not hirq.pat_is_catchall(m["arms"][idx]["pat"]):
+        return hirq.local_id(scr["recv"])
+    return None
 
 
 def args(rep, c, sfx, trackpath):
